@@ -695,7 +695,14 @@ def gen_class(rng, decls, name, superclass=None, refclasses=(), embed=None):
         pname = gen_name(rng, 'p%d' % i)
         quals = gen_qualifiers(rng, decls, 'PROPERTY')
         if r < 0.12 and refclasses:
-            props.append(pywbem.CIMProperty(pname, None, type='reference', reference_class=rng.choice(refclasses),
+            rcls = rng.choice(refclasses)
+            # a default instance path (keys inside the C07-safe domain), with or without qualifiers on the property
+            rval = None
+            if rng.random() < 0.5:
+                kv = rng.choice([gen_string(rng, rng.randint(1, 9), (0, 0, 0.1, 0, 0.3)).replace('=', '').replace(',', ''),
+                                 pywbem.Uint8(rng.randint(0, 255)), rng.random() < 0.5])
+                rval = pywbem.CIMInstanceName(rcls, keybindings={'k': kv})
+            props.append(pywbem.CIMProperty(pname, rval, type='reference', reference_class=rcls,
                                             qualifiers=gen_qualifiers(rng, decls, 'REFERENCE'), class_origin=name))
             continue
         typ = rng.choice(QUAL_TYPES)
@@ -864,6 +871,9 @@ def value_diff(a, b, typ):
     return '' if a == b else 'value'
 
 
+_CMP_FLAVORS = True
+
+
 def aspects_qualifier(a, b, path):
     out = []
     if a.name.lower() != b.name.lower():
@@ -874,7 +884,7 @@ def aspects_qualifier(a, b, path):
     if d:
         out.append(path + ':value:' + a.type + ':' + d)
     for f in ('overridable', 'tosubclass', 'translatable', 'toinstance'):
-        if getattr(a, f) != getattr(b, f):
+        if _CMP_FLAVORS and getattr(a, f) != getattr(b, f):
             out.append(path + ':flavor:' + f)
     return out
 
@@ -1816,6 +1826,153 @@ def slice_session(steps):
     return keep
 
 
+# =========================================================================== stage 4: mock-repository sessions
+
+DFLT_NS, TGT_NS = 'root/c08dflt', 'root/c08tgt'
+
+
+def gen_mock_session(rng):
+    """a session on a FakedWBEMConnection whose TARGET namespace is not the default namespace: qualifier
+    declarations and version 1 of a class go into both namespaces; a changed version 2 of the class and an
+    instance of version 2 are compiled into the target namespace only"""
+    import pywbem
+    decls = [KEY_DECL()] + [norm_qualdecl(gen_qualdecl(rng, name='Qm%d' % i)) for i in range(rng.randint(0, 2))]
+    for d in decls[1:]:
+        d.scopes = dict((k, True) for k in SCOPES)
+
+    def mk():
+        c = gen_class(rng, decls[1:], 'M_a')
+        props = [pywbem.CIMProperty('Id', None, type='string', qualifiers=[qualifier_for(rng, decls[0], True)],
+                                    class_origin='M_a')] + list(c.properties.values())
+        return pywbem.CIMClass('M_a', properties=props, methods=list(c.methods.values()),
+                               qualifiers=list(c.qualifiers.values()))
+    v1, v2 = mk(), mk()
+    inst = gen_instance(rng, v2)
+    if inst is None:
+        inst = pywbem.CIMInstance('M_a')
+    inst.properties['Id'] = pywbem.CIMProperty('Id', gen_string(rng, rng.randint(1, 8), (0, 0, 0, 0, 0.2)) or 'k',
+                                               type='string')
+    if rng.random() < 0.3:
+        inst.classname = recase(rng, inst.classname)
+    return {'decls': decls, 'v1': v1, 'v2': v2, 'inst': inst,
+            'ml': [rng.choice([60, 80, 80, 100, rng.randint(50, 120)]) for _ in range(3)]}
+
+
+def run_mock_session(run, ses):
+    """-> number of violations added.  Qualifier flavors are not compared here: the mock repository resolves flavor
+    defaults when it stores a class (C12's subject); everything else is compared as in stage 2."""
+    import pywbem_mock
+    global _CMP_FLAVORS
+    n0 = len(run.violations)
+    case = {'op': 'mocksession', 'decls': [obj_repr(d) for d in ses['decls']], 'v1': obj_repr(ses['v1']),
+            'v2': obj_repr(ses['v2']), 'inst': obj_repr(ses['inst']), 'ml': ses['ml']}
+
+    def vio(step, kind, **kw):
+        run.violate(dict({'stage': 'mock', 'step': step, 'kind': kind}, **kw), case, kw)
+
+    def comp(conn, obj, ml, ns, step):
+        try:
+            mof = obj.tomof(ml)
+        except Exception as e:  # noqa
+            return 'tomof:' + type(e).__name__
+        import signal
+        old = signal.signal(signal.SIGALRM, _alarm)
+        signal.setitimer(signal.ITIMER_REAL, COMPILE_TIMEOUT * 2)
+        try:
+            conn.compile_mof_string(mof, namespace=ns)
+            return None
+        except Exception as e:  # noqa
+            return type(e).__name__
+        finally:
+            signal.setitimer(signal.ITIMER_REAL, 0)
+            signal.signal(signal.SIGALRM, old)
+
+    def cmp_class(orig, got, step):
+        for a in sorted(set(aspects(orig, got))):
+            f = a.split(':')
+            sig = {'where': f[0], 'what': f[1] if len(f) > 1 else ''}
+            if len(f) > 3:
+                sig['type'], sig['how'] = f[2], f[3]
+            elif len(f) > 2:
+                sig['which'] = f[2]
+            vio(step, 'differs', **sig)
+
+    conn = pywbem_mock.FakedWBEMConnection(default_namespace=DFLT_NS)
+    conn.add_namespace(TGT_NS)
+    _CMP_FLAVORS = False
+    try:
+        class _Joined:           # all declarations in one compile call per namespace (a MOFCompiler per call is slow)
+            def tomof(self, ml):
+                return ''.join(d.tomof(ml) for d in ses['decls'])
+        for ns in (DFLT_NS, TGT_NS):
+            err = comp(conn, _Joined(), 80, ns, 'qualifierdecl')
+            if err:
+                if err != 'tomof:ValueError':
+                    vio('qualifierdecl', 'recompile_exception', exc=err)
+                return len(run.violations) - n0
+        for ns in (DFLT_NS, TGT_NS):
+            err = comp(conn, ses['v1'], ses['ml'][0], ns, 'class_v1')
+            if err:
+                if err != 'tomof:ValueError':
+                    vio('class_v1', 'recompile_exception', exc=err)
+                return len(run.violations) - n0
+        cmp_class(ses['v1'], conn.GetClass('M_a', namespace=TGT_NS, LocalOnly=True, IncludeQualifiers=True), 'class_v1')
+        # the changed class into the non-default namespace, where the class already exists
+        err = comp(conn, ses['v2'], ses['ml'][1], TGT_NS, 'class_v2')
+        if err:
+            if err != 'tomof:ValueError':
+                vio('class_v2_redeclared', 'recompile_exception', exc=err)
+            return len(run.violations) - n0
+        cmp_class(ses['v2'], conn.GetClass('M_a', namespace=TGT_NS, LocalOnly=True, IncludeQualifiers=True),
+                  'class_v2_redeclared')
+        # ... and the same-named class of the default namespace is left alone
+        cmp_class(ses['v1'], conn.GetClass('M_a', namespace=DFLT_NS, LocalOnly=True, IncludeQualifiers=True),
+                  'default_namespace_untouched')
+        if len(run.violations) > n0 and any(not is_known(v['sig']) for v in run.violations[n0:]):
+            return len(run.violations) - n0
+        # an instance of the changed class
+        inst = ses['inst']
+        before = len(conn.EnumerateInstanceNames('M_a', namespace=TGT_NS))
+        err = comp(conn, inst, ses['ml'][2], TGT_NS, 'instance')
+        if err:
+            if err != 'tomof:ValueError':
+                vio('instance_of_redeclared_class', 'recompile_exception', exc=err)
+            return len(run.violations) - n0
+        insts = conn.EnumerateInstances('M_a', namespace=TGT_NS)
+        if len(insts) != before + 1:
+            vio('instance_of_redeclared_class', 'not_stored')
+            return len(run.violations) - n0
+        kid = inst.properties['Id'].value
+        got = [i for i in insts if i.properties['Id'].value == kid]
+        if not got:
+            vio('instance_of_redeclared_class', 'not_stored')
+            return len(run.violations) - n0
+        for k, p in inst.properties.items():
+            if k not in got[-1].properties:
+                vio('instance_of_redeclared_class', 'differs', where='instance.property', what='missing')
+                continue
+            for a in aspects_typed(p, got[-1].properties[k], 'instance.property'):
+                f = a.split(':')
+                sig = {'where': f[0], 'what': f[1]}
+                if len(f) > 3:
+                    sig['type'], sig['how'] = f[2], f[3]
+                vio('instance_of_redeclared_class', 'differs', **sig)
+    finally:
+        _CMP_FLAVORS = True
+    return len(run.violations) - n0
+
+
+def stage4(run):
+    rng = run.rng
+    n = 500 if run.thorough else 45
+    for _ in range(n):
+        ses = gen_mock_session(rng)
+        run_mock_session(run, ses)
+        run.case({'op': 'mocksession', 'v2': obj_repr(ses['v2']), 'inst': obj_repr(ses['inst'])},
+                 nontrivial=True)
+        run.count('mocksession')
+
+
 # =========================================================================== entry points
 
 def run(run):
@@ -1834,7 +1991,10 @@ def run(run):
                 'ONE compiler and repository in which qualifier declarations and classes are re-declared with other '
                 'type/array shape/default/flavors/scopes between the steps and then used by later classes and '
                 'instances; each recompiled object is compared with its original; a session is non-trivial when '
-                'something was re-declared; a violating session is shrunk by dropping earlier steps.')
+                'something was re-declared; a violating session is reduced by dependency slicing. stage 4: sessions on a '
+                'FakedWBEMConnection with a non-default target namespace: declarations and class v1 into both namespaces, a '
+                'changed class v2 and an instance of v2 into the target namespace; v2 and the instance must come back, the '
+                'same-named class of the default namespace must stay v1.')
     run.assumptions += ['PLY lexer/LALR driver and tables: the per-token regexes for string/char literals are hand-modelled; '
                         'token dispatch, the grammar and everything at declaration level are NOT modelled (stage 2 is '
                         'decided by the differential oracle only: C08 is partial there)',
@@ -1852,6 +2012,7 @@ def run(run):
     stage_typed_decls(run)
     stage2(run)
     stage3(run)
+    stage4(run)
 
 
 def search(run):
@@ -1909,6 +2070,7 @@ def search(run):
     # 4. declarations, sessions
     stage2(sub)
     stage3(sub)
+    stage4(sub)
     flush()
     return run.violations[before:]
 
@@ -1931,6 +2093,13 @@ def replay(payload):
         shown = real_strarray(m)
         if 'exc' in shown or shown['ok'] != [common.cps(x) for x in case['v']]:
             r.violate({'stage': 'string', 'kind': 'value_differs', 'where': 'value_tomof_array'}, case, shown)
+    elif case.get('op') == 'mocksession':
+        ses = {'decls': [obj_load(x) for x in case['decls']], 'v1': obj_load(case['v1']), 'v2': obj_load(case['v2']),
+               'inst': obj_load(case['inst']), 'ml': case['ml']}
+        run_mock_session(r, ses)
+        r.violations[:] = [v for v in r.violations if not is_known(v['sig'])]
+        shown = {'v2': ses['v2'].tomof(ses['ml'][1]), 'inst': ses['inst'].tomof(ses['ml'][2]),
+                 'observed': (r.violations[0]['sig'] if r.violations else None)}
     elif case.get('op') == 'session':
         steps = [{'kind': x['kind'], 'maxline': x['maxline'], 'obj': obj_load(x['obj']),
                   'redeclared': x.get('redeclared', False), 'why': x.get('why')} for x in case['steps']]
